@@ -41,6 +41,13 @@ func (x *Exec) constTerm(v constant.Value, t types.Type, n ast.Node) Term {
 		}
 		return tFalse
 	case constant.Int:
+		if b, ok := types.Unalias(t).Underlying().(*types.Basic); ok && t != nil && b.Info()&types.IsFloat != 0 {
+			// an integer constant of floating point type
+			fs := x.d.Uninterp("Float")
+			r := x.d.constant("flit_"+sanitize(v.ExactString()), fs)
+			r.Ty = t
+			return r
+		}
 		if i, ok := constant.Int64Val(v); ok {
 			r := tInt(i)
 			r.Ty = t
@@ -253,6 +260,9 @@ func (x *Exec) exprs(st *State, fr *Frame, e ast.Expr) []Term {
 			return one(x.unsafeLoad(st, loc, e))
 		}
 		p := x.expr(st, fr, e.X)
+		if p.Loc != nil {
+			return one(x.unsafeLoad(st, p.Loc, e))
+		}
 		x.nilCheck(st, p, e)
 		t := x.info.TypeOf(e)
 		return one(x.derefWhole(st, p, t, e))
@@ -988,7 +998,9 @@ func (x *Exec) slice(st *State, fr *Frame, e *ast.SliceExpr) Term {
 		bounds := tAnd(tApp("Bool", "<=", tInt(0), lo), tApp("Bool", "<=", lo, hi), tApp("Bool", "<=", hi, ln))
 		x.oblige(st, "safety", "slice-bounds", bounds, e, "0 <= low <= high <= len")
 		st.assume(bounds)
-		r = tApp(b.Sort, "take_"+b.Sort, hi, r)
+		if hi.S != ln.S { // x[lo:len(x)] is x[lo:]
+			r = tApp(b.Sort, "take_"+b.Sort, hi, r)
+		}
 	} else {
 		x.oblige(st, "safety", "slice-bounds", tAnd(tApp("Bool", "<=", tInt(0), lo), tApp("Bool", "<=", lo, ln)), e, "0 <= low <= len")
 	}
